@@ -78,6 +78,15 @@ def run(ck):
     wr_ = [e for e in r.events(("assign", "call")) if (e["k"] == "assign" and (e["lhs"].get("f") or "").startswith(H + "Cookie::") and (e["lhs"].get("f") or "").rsplit("::", 1)[1] in MEMBERS)
            or (e["k"] == "call" and ((e.get("recv") or {}).get("f") or "").startswith(H + "Cookie::") and ((e.get("recv") or {}).get("f") or "").rsplit("::", 1)[1] in MEMBERS
                and lib.is_stl_mutation(e))]
+    # ... nor hands one to a function that may modify it (a parameter of non-const reference or pointer type)
+    for e in r.events("call"):
+        cps = e.get("cparams") or []
+        for i_, a_ in enumerate(e.get("args", [])):
+            fq = a_.get("f") or ""
+            if fq.startswith(H + "Cookie::") and fq.rsplit("::", 1)[1] in MEMBERS and i_ < len(cps):
+                pt = cps[i_].strip()
+                if (pt.endswith("&") or pt.endswith("*")) and not pt.startswith("const ") and "const &" not in pt and not (e.get("callee") or "").startswith("std::"):
+                    wr_.append(e)
     ck.ob("C17-R1", "fromRaw/attributes-written-only-by-matchers", not wr_, wr_[0].loc if wr_ else r.loc, r,
           "Cookie::fromRaw itself never assigns or resets an attribute member" if not wr_ else
           "`%s` changes an attribute outside its matcher: a written cookie that carries this combination of attributes is not parsed back equal" % (wr_[0].get("t") or "")[:60])
@@ -114,3 +123,17 @@ def run(ck):
         clr = [e for e in g_.calls(lambda e: (e.get("callee") or "") == H + "CookieJar::removeAllCookies")]
         ok = ok and bool(clr) and cfg.ev_dominates(d, clr[0], a) and a.block == clr[0].block
     ck.ob("C17-R3", "HeadersStep/jar-cleared-before-readd", ok, afr[0].loc if afr else hs.loc, hs, "removeAllCookies() immediately precedes addFromRaw()")
+
+    # malformed attribute values are errors: nothing in cookie.cc swallows an exception (a handler that completes normally turns a
+    # malformed cookie into an accepted one with the attribute silently missing)
+    nh = 0
+    for f in prog.funcs.values():
+        if not f.file.endswith("/common/cookie.cc"):
+            continue
+        for hb in [b for b in f.blocks.values() if b.label and b.label.get("k") == "catch"]:
+            nh += 1
+            quiet = [x for x in cfg.exits_without(f, lambda e: e["k"] == "throw", start_block=hb.id) if x.kind != "throw"]
+            ck.ob("C17-R1", "%s/catch(%s)-rethrows" % (f.base.replace(H, ""), hb.label.get("type")), not quiet, "%s:%s" % (f.file, hb.label.get("l")), f,
+                  "the handler throws on every path" if not quiet else
+                  "the handler for %s completes normally: the malformed value that raised it is accepted as if the attribute were absent" % hb.label.get("type"))
+    ck.note("C17-R1: %d catch handler(s) in cookie.cc" % nh)
